@@ -9,6 +9,7 @@ import (
 	"sync"
 
 	kanzi "github.com/flanglet/kanzi-go/v2"
+	"github.com/flanglet/kanzi-go/v2/bitstream"
 
 	kio "github.com/flanglet/kanzi-go/v2/io"
 	"kzverif/fio"
@@ -27,6 +28,18 @@ type Cfg struct {
 	// Verbosity > 0: the context carries "verbosity" and a listener is registered (what the command line tool does with -v)
 	Verbosity uint       `json:"verbosity,omitempty"`
 	Events    *Collector `json:"-"`
+	// API selects the public entry points: "" = NewWriterWithCtx / NewReaderWithCtx, "debug" = NewWriterWithCtx2 / NewReaderWithCtx2 over
+	// Debug bit streams that wrap the default ones, "positional" = NewReader / NewHeaderlessReader (reading side only)
+	API string `json:"api,omitempty"`
+}
+
+// DebugOut wraps a default output bit stream over sink into a DebugOutputBitStream (log discarded)
+func DebugOut(sink io.WriteCloser) (kanzi.OutputBitStream, error) {
+	obs, err := bitstream.NewDefaultOutputBitStream(sink, 65536)
+	if err != nil {
+		return nil, err
+	}
+	return bitstream.NewDebugOutputBitStream(obs, io.Discard)
 }
 
 // Collector is a listener that keeps the BLOCK_INFO messages (block id, position in the bit stream, skip flags)
@@ -249,7 +262,29 @@ func Decompress(stream []byte, c RCfg, chunks []int, lens []int, hook kio.VerifH
 	if hook != nil {
 		ctx["verifHook"] = hook
 	}
-	r, err := kio.NewReaderWithCtx(src, ctx)
+	var r *kio.Reader
+	var err error
+	api := ""
+	if c.W != nil && hook == nil {
+		api = c.W.API
+	}
+	switch {
+	case api == "debug":
+		var ibs kanzi.InputBitStream
+		if ibs, err = bitstream.NewDefaultInputBitStream(src, 65536); err == nil {
+			if ibs, err = bitstream.NewDebugInputBitStream(ibs, io.Discard); err == nil {
+				r, err = kio.NewReaderWithCtx2(ibs, ctx)
+			}
+		}
+	case api == "positional" && c.From == 0 && c.To == 0 && c.Verbosity == 0:
+		if c.W.Headerless {
+			r, err = kio.NewHeaderlessReader(src, c.Jobs, c.W.Transform, c.W.Entropy, c.W.Block, c.W.Ck, c.OrigSize, 6)
+		} else {
+			r, err = kio.NewReader(src, c.Jobs)
+		}
+	default:
+		r, err = kio.NewReaderWithCtx(src, ctx)
+	}
 	if err != nil {
 		return nil, err
 	}
